@@ -2204,7 +2204,7 @@ func TestVerifC05(t *testing.T) {
 func crFanOut(t *testing.T, rule string) {
 	par := 6
 	if *crTier == "thorough" {
-		par = 2 // sixteen shards run at once in that tier
+		par = 1 // sixteen shards run at once in that tier; a loaded machine makes the 2 s propose timeout fire
 	}
 	if par > *crN {
 		par = *crN
